@@ -213,6 +213,7 @@ class gre (packet_base):
             r = r[:4] + struct.pack("!H", csum) + r[4+2:]
             self.csum = csum
         elif self.csum is not None:
-            assert checksum(r + payload) == 0
+            if checksum(r + payload) != 0:
+                self.msg('warning GRE checksum does not match')
 
         return r
